@@ -6,7 +6,8 @@ CONSTANTS
   TrimDepth = 2
   MaxSteps = 13
   WithCrash = FALSE
-  CrashInHeadWindow = FALSE
+  HeadInBatch = TRUE
+  CrashInHeadWindow = TRUE
   SpendTrimCandidate = TRUE
 VIEW view
 INVARIANTS CommitmentEqualsContent
